@@ -43,13 +43,16 @@ import (
 	"strconv"
 	"strings"
 	"sync"
+	"sync/atomic"
 	"time"
 
 	c "github.com/buzzfeed/sso/internal/zz_verif/common"
 
 	"github.com/buzzfeed/sso/internal/auth"
+	providers "github.com/buzzfeed/sso/internal/auth/providers"
 	"github.com/buzzfeed/sso/internal/pkg/aead"
 	"github.com/buzzfeed/sso/internal/pkg/sessions"
+	"github.com/buzzfeed/sso/internal/pkg/singleflight"
 )
 
 const (
@@ -85,6 +88,11 @@ type idp struct {
 	mu     sync.Mutex
 	answer c.Answer
 	calls  []string // tokens, in call order
+	// hold mode (concurrent histories): every arriving revoke call is logged, then parked until the
+	// driver releases it; answers are looked up by token
+	hold    bool
+	byToken map[string]c.Answer
+	held    []chan struct{}
 }
 
 func newIdp() *idp {
@@ -104,7 +112,21 @@ func newIdp() *idp {
 		f.mu.Lock()
 		f.calls = append(f.calls, tok)
 		a := f.answer
+		var gate chan struct{}
+		if f.hold {
+			if ba, ok := f.byToken[tok]; ok {
+				a = ba
+			}
+			gate = make(chan struct{})
+			f.held = append(f.held, gate)
+		}
 		f.mu.Unlock()
+		if gate != nil {
+			select {
+			case <-gate:
+			case <-time.After(4 * time.Second): // never leave a handler parked for good
+			}
+		}
 		if a.Status == 0 {
 			if hj, ok := w.(http.Hijacker); ok {
 				cn, _, _ := hj.Hijack()
@@ -128,6 +150,32 @@ func (f *idp) set(a c.Answer) {
 	f.answer = a
 	f.calls = nil
 	f.mu.Unlock()
+}
+
+// startHold switches to hold mode with per-token answers.
+func (f *idp) startHold(byToken map[string]c.Answer) {
+	f.mu.Lock()
+	f.hold, f.byToken, f.held, f.calls = true, byToken, nil, nil
+	f.answer = c.Answer{Status: 500, Body: "unscripted token"}
+	f.mu.Unlock()
+}
+
+func (f *idp) heldCount() int {
+	f.mu.Lock()
+	defer f.mu.Unlock()
+	return len(f.held)
+}
+
+// releaseAll lets the parked calls go, in arrival order, and leaves hold mode.
+func (f *idp) releaseAll() {
+	f.mu.Lock()
+	gates := f.held
+	f.held, f.hold = nil, false
+	f.mu.Unlock()
+	for _, g := range gates {
+		close(g)
+		time.Sleep(2 * time.Millisecond)
+	}
 }
 
 func (f *idp) take() []string {
@@ -217,11 +265,12 @@ func idpCoq(a c.Answer) string {
 // the authenticator
 
 type authWorld struct {
-	mux     *auth.AuthenticatorMux
-	host    string
-	secret  string
-	cookie  aead.Cipher
-	foreign aead.Cipher
+	mux       *auth.AuthenticatorMux
+	providers map[string]providers.Provider
+	host      string
+	secret    string
+	cookie    aead.Cipher
+	foreign   aead.Cipher
 }
 
 func mustURL(s string) *url.URL {
@@ -262,7 +311,7 @@ func buildAuth(f *idp, statsdPort int, host, secret string) *authWorld {
 	}
 	g.Data().RevokeURL = mustURL(f.srv.URL + "/google/revoke")
 	o.Data().RevokeURL = mustURL(f.srv.URL + "/okta/revoke")
-	w := &authWorld{mux: m, host: host, secret: secret}
+	w := &authWorld{mux: m, host: host, secret: secret, providers: ps}
 	w.cookie, err = aead.NewMiscreantCipher(authCookieSecret)
 	c.Must(err)
 	w.foreign, err = aead.NewMiscreantCipher(foreignSecret)
@@ -390,6 +439,76 @@ func get(ps []kv, k string) string {
 	return ""
 }
 
+// proxyVar is what the CLIENT controls in a request for the proxy's sign-out URL besides the Host:
+// query string, extra headers, a form body. None of it may influence the response: the return address
+// must name exactly the request's Host, path "/".
+type proxyVar struct {
+	Query   string      `json:"query,omitempty"`
+	Headers [][2]string `json:"headers,omitempty"`
+	Body    string      `json:"body,omitempty"`
+}
+
+var hostileTargets = []string{"//other.example.test/x", "//partner-portal.proxy.test/welcome-back", "/goodbye", "/\\other.example.test", "\\\\other.example.test/",
+	"https://other.example.test/", "https://wiki.proxy.test/", "@other.example.test", "%2f%2fother.example.test", "%2F%2Fwiki.proxy.test%2F", "http:other.example.test",
+	"///other.example.test", "/%09/other.example.test", "?x=//other.example.test", "#//other.example.test", ".other.example.test", "/..//other.example.test",
+	"javascript:alert(1)", "", "/", "https://app.proxy.test.other.example.test/", "//wiki.proxy.test:8443/", "/oauth2/sign_out"}
+var redirectParams = []string{"rd", "redirect", "redirect_uri", "redirect_url", "next", "return", "return_to", "returnTo", "url", "state", "continue", "dest", "destination",
+	"target", "to", "goto", "r", "u", "ts", "sig", "host", "scheme"}
+
+func genProxyVar(r *c.Rng) proxyVar {
+	var v proxyVar
+	pairs := func() string {
+		n := 1 + r.Intn(3)
+		var parts []string
+		for k := 0; k < n; k++ {
+			val := hostileTargets[r.Intn(len(hostileTargets))]
+			if r.Chance(0.7) {
+				val = url.QueryEscape(val)
+			}
+			parts = append(parts, redirectParams[r.Intn(len(redirectParams))]+"="+val)
+		}
+		return strings.Join(parts, "&")
+	}
+	if r.Chance(0.7) {
+		v.Query = pairs()
+	}
+	if r.Chance(0.5) {
+		other := []string{"other.example.test", "wiki.proxy.test", "partner-portal.proxy.test", "other.example.test:8443", "app.proxy.test@other.example.test"}
+		n := 1 + r.Intn(3)
+		for k := 0; k < n; k++ {
+			o := other[r.Intn(len(other))]
+			switch r.Intn(11) {
+			case 0:
+				v.Headers = append(v.Headers, [2]string{"X-Forwarded-Host", o})
+			case 1:
+				v.Headers = append(v.Headers, [2]string{"Forwarded", "for=192.0.2.9;host=" + o + ";proto=https"})
+			case 2:
+				v.Headers = append(v.Headers, [2]string{"Referer", "https://" + o + "/page?rd=//" + o + "/"})
+			case 3:
+				v.Headers = append(v.Headers, [2]string{"Origin", "https://" + o})
+			case 4:
+				v.Headers = append(v.Headers, [2]string{"X-Original-Url", "https://" + o + "/"})
+			case 5:
+				v.Headers = append(v.Headers, [2]string{"X-Forwarded-Server", o})
+			case 6:
+				v.Headers = append(v.Headers, [2]string{"X-Forwarded-Port", "8443"})
+			case 7:
+				v.Headers = append(v.Headers, [2]string{"X-Forwarded-Prefix", "//" + o})
+			case 8:
+				v.Headers = append(v.Headers, [2]string{"X-Forwarded-For", "198.51.100.7"})
+			case 9:
+				v.Headers = append(v.Headers, [2]string{"X-Rewrite-Url", "//" + o + "/"})
+			case 10:
+				v.Headers = append(v.Headers, [2]string{"X-Forwarded-Scheme", []string{"http", "https", "ftp"}[r.Intn(3)]})
+			}
+		}
+	}
+	if r.Chance(0.3) {
+		v.Body = pairs()
+	}
+	return v
+}
+
 type proxyObs struct {
 	Params []kv
 	TS     int64
@@ -397,9 +516,20 @@ type proxyObs struct {
 }
 
 // proxyStep visits the proxy's sign-out URL.
-func (h *history) proxyStep(pw *proxyWorld, host string, originForm bool, method string, cookieKind int) proxyObs {
+func (h *history) proxyStep(pw *proxyWorld, host string, originForm bool, method string, cookieKind int, vs ...proxyVar) proxyObs {
 	if strings.Contains(host, "%") {
 		originForm = true // an absolute-form target with such a host is not a parsable request line
+	}
+	var v proxyVar
+	if len(vs) > 0 {
+		v = vs[0]
+	}
+	if v.Body != "" && method != "POST" {
+		method = "POST"
+	}
+	path := "/oauth2/sign_out"
+	if v.Query != "" {
+		path += "?" + v.Query
 	}
 	scheme := "http"
 	if pw.secure {
@@ -407,12 +537,20 @@ func (h *history) proxyStep(pw *proxyWorld, host string, originForm bool, method
 	}
 	var raw string
 	if originForm {
-		raw = method + " /oauth2/sign_out HTTP/1.1\r\nHost: " + host + "\r\n"
+		raw = method + " " + path + " HTTP/1.1\r\nHost: " + host + "\r\n"
 		if pw.secure {
 			raw += "X-Forwarded-Proto: https\r\n"
+		} else if len(v.Headers) > 0 && len(v.Headers)%2 == 0 {
+			raw += "X-Forwarded-Proto: https\r\n" // a plain-http deployment must ignore it
 		}
 	} else {
-		raw = method + " " + scheme + "://" + host + "/oauth2/sign_out HTTP/1.1\r\nHost: " + host + "\r\n"
+		raw = method + " " + scheme + "://" + host + path + " HTTP/1.1\r\nHost: " + host + "\r\n"
+	}
+	for _, kv := range v.Headers {
+		raw += kv[0] + ": " + kv[1] + "\r\n"
+	}
+	if v.Body != "" {
+		raw += "Content-Type: application/x-www-form-urlencoded\r\nContent-Length: " + strconv.Itoa(len(v.Body)) + "\r\n"
 	}
 	switch cookieKind {
 	case 1:
@@ -422,8 +560,18 @@ func (h *history) proxyStep(pw *proxyWorld, host string, originForm bool, method
 			RefreshDeadline: time.Now().Add(time.Hour), LifetimeDeadline: time.Now().Add(24 * time.Hour), ValidDeadline: time.Now().Add(5 * time.Minute), AuthorizedUpstream: host}
 		raw += "Cookie: " + proxyCookie + "=" + pw.W.Seal(s) + "\r\n"
 	}
-	raw += "\r\n"
-	req := rawRequest(raw)
+	raw += "\r\n" + v.Body
+	req, rerr := http.ReadRequest(bufio.NewReader(strings.NewReader(raw)))
+	if rerr != nil {
+		if len(vs) > 0 {
+			// net/http refuses this request line (a real server answers 400 before any handler runs):
+			// send the same variation with the query escaped once more
+			v.Query = url.QueryEscape(v.Query)
+			return h.proxyStep(pw, host, originForm, method, cookieKind, v)
+		}
+		c.Must(rerr)
+	}
+	req.RemoteAddr = remoteAddr
 	t0 := time.Now()
 	clock := t0.Unix()
 	rec := pw.W.Do(req)
@@ -462,7 +610,7 @@ func (h *history) proxyStep(pw *proxyWorld, host string, originForm bool, method
 		c.Z(int64(rec.Code)), c.Bool(eff == "cleared"), c.Str(obsBase), c.Str(rawQuery), paramsCoq(params))
 	h.steps = append(h.steps, coq)
 	h.js = append(h.js, map[string]interface{}{"step": "proxy_sign_out", "slug": pw.slug, "secure": pw.secure, "host": host, "origin_form": originForm,
-		"method": method, "status": rec.Code, "cookie": eff, "location": loc})
+		"method": method, "client": v, "status": rec.Code, "cookie": eff, "location": loc})
 	return proxyObs{Params: params, TS: ts, OK: rec.Code == 302 && len(params) == 3}
 }
 
@@ -512,7 +660,21 @@ func sub(re *regexp.Regexp, s string) string {
 	return html.UnescapeString(m[1])
 }
 
-func (h *history) authStep(aw *authWorld, f *idp, rq authReq) authObs {
+type prepared struct {
+	req              *http.Request
+	name, ck, method string
+	uri, sig, ts     string
+	parses, inDomain bool
+}
+
+// reqCoq renders the request as the model's [areq].
+func (p prepared) reqCoq(idp string) string {
+	return fmt.Sprintf("{| q_method := %s; q_uri := %s; q_sig := %s; q_ts := %s; q_parses := %s; q_in_domain := %s; q_cookie := %s; q_idp := %s |}",
+		p.method, c.Str(p.uri), c.Str(p.sig), c.Str(p.ts), c.Bool(p.parses), c.Bool(p.inDomain), p.ck, idp)
+}
+
+// prepareAuth builds the real request to the authenticator's /<slug>/sign_out.
+func prepareAuth(aw *authWorld, rq *authReq) prepared {
 	q := url.Values{}
 	if rq.URI != "\x00absent" {
 		q.Set("redirect_uri", rq.URI)
@@ -581,17 +743,19 @@ func (h *history) authStep(aw *authWorld, f *idp, rq authReq) authObs {
 		req.AddCookie(&http.Cookie{Name: name + "x", Value: v})
 	}
 	_, perr := url.Parse(uri)
-	inDomain := auth.VerifC19InDomain(aw.mux, rq.Slug, uri)
-	f.set(rq.Out.Ans)
-	t0 := time.Now()
-	clock := t0.Unix()
-	rec := httptest.NewRecorder()
-	aw.mux.ServeHTTP(rec, req)
-	guard(t0)
-	revoked := f.take()
+	m := map[string]string{"GET": "MGet", "POST": "MPost"}[rq.Method]
+	if m == "" {
+		m = "MOther"
+	}
+	return prepared{req: req, name: name, ck: ck, method: m, uri: uri, sig: sig, ts: ts, parses: perr == nil,
+		inDomain: auth.VerifC19InDomain(aw.mux, rq.Slug, uri)}
+}
+
+// observeAuth projects the authenticator's response.
+func observeAuth(rec *httptest.ResponseRecorder, name string) (authObs, string) {
 	eff, _ := c.CookieEffect(rec, name)
 	bodyStr := rec.Body.String()
-	o := authObs{Status: rec.Code, Cleared: eff == "cleared", Revoked: revoked}
+	o := authObs{Status: rec.Code, Cleared: eff == "cleared"}
 	var bodyCoq string
 	switch {
 	case rec.Code == 302:
@@ -608,6 +772,21 @@ func (h *history) authStep(aw *authWorld, f *idp, rq authReq) authObs {
 	if eff == "set" { // never expected: make it visible as a foreign observation
 		bodyCoq = "(BGate 999%Z)"
 	}
+	return o, bodyCoq
+}
+
+func (h *history) authStep(aw *authWorld, f *idp, rq authReq) authObs {
+	pr := prepareAuth(aw, &rq)
+	uri, sig, ts, inDomain := pr.uri, pr.sig, pr.ts, pr.inDomain
+	f.set(rq.Out.Ans)
+	t0 := time.Now()
+	clock := t0.Unix()
+	rec := httptest.NewRecorder()
+	aw.mux.ServeHTTP(rec, pr.req)
+	guard(t0)
+	revoked := f.take()
+	o, bodyCoq := observeAuth(rec, pr.name)
+	o.Revoked = revoked
 	h.tab.addFields(aw.secret, uri, ts)
 	link := "None"
 	if rq.Link != nil {
@@ -617,18 +796,82 @@ func (h *history) authStep(aw *authWorld, f *idp, rq authReq) authObs {
 	if rq.Raw != nil {
 		rawCoq = "(Some " + c.Str(*rq.Raw) + ")"
 	}
-	m := map[string]string{"GET": "MGet", "POST": "MPost"}[rq.Method]
-	if m == "" {
-		m = "MOther"
-	}
-	coq := fmt.Sprintf("SAuth {| ao_secret := %s; ao_provider := %s; ao_clock := %s; ao_req := {| q_method := %s; q_uri := %s; q_sig := %s; q_ts := %s; q_parses := %s; q_in_domain := %s; q_cookie := %s; q_idp := %s |}; ao_link := %s; ao_raw := %s; ao_resp := {| r_body := %s; r_clears := %s; r_revoked := %s |} |}",
-		c.Str(aw.secret), map[string]string{"google": "PGoogle", "okta": "POkta"}[rq.Slug], c.Z(clock), m, c.Str(uri), c.Str(sig), c.Str(ts),
-		c.Bool(perr == nil), c.Bool(inDomain), ck, idpCoq(rq.Out.Ans), link, rawCoq, bodyCoq, c.Bool(o.Cleared), c.Strs(revoked))
+	coq := fmt.Sprintf("SAuth {| ao_secret := %s; ao_provider := %s; ao_clock := %s; ao_req := %s; ao_link := %s; ao_raw := %s; ao_resp := {| r_body := %s; r_clears := %s; r_revoked := %s |} |}",
+		c.Str(aw.secret), providerCoq[rq.Slug], c.Z(clock), pr.reqCoq(idpCoq(rq.Out.Ans)), link, rawCoq, bodyCoq, c.Bool(o.Cleared), c.Strs(revoked))
 	h.steps = append(h.steps, coq)
 	h.js = append(h.js, map[string]interface{}{"step": "auth_sign_out", "slug": rq.Slug, "method": rq.Method, "redirect_uri": uri, "sig": sig, "ts": ts,
 		"in_body": rq.InBody, "raw_query": rq.Raw, "cookie": rq.CookieKind, "secrets_agree": aw.secret == proxySecret, "idp_outcome": rq.Out.Kind, "in_domain": inDomain,
 		"status": rec.Code, "kind": o.Kind, "location": o.Loc, "cleared": o.Cleared, "revoke_calls": revoked})
 	return o
+}
+
+var providerCoq = map[string]string{"google": "PGoogle", "okta": "POkta"}
+
+// concStep sends the requests so that they overlap at the provider layer: request i+1 is issued once
+// request i is accounted for — it has finished, or its revoke call is parked at the fake IdP, or it is
+// counted as a duplicate caller in the single-flight map (read through a shim under the group's own
+// mutex). Then the parked calls are released in arrival order and all responses are collected.
+// Returns, per request, whether the cookie was cleared, and the IdP call log.
+func (h *history) concStep(aw *authWorld, f *idp, slug string, rqs []authReq, answers map[string]c.Answer) ([]authObs, []string) {
+	group := providers.VerifC19Group(aw.providers[slug])
+	if group == nil {
+		c.Must(fmt.Errorf("provider %s is not behind the single-flight wrapper", slug))
+	}
+	prs := make([]prepared, len(rqs))
+	for i := range rqs {
+		prs[i] = prepareAuth(aw, &rqs[i])
+		h.tab.addFields(aw.secret, prs[i].uri, prs[i].ts)
+	}
+	f.startHold(answers)
+	t0 := time.Now()
+	clock := t0.Unix()
+	recs := make([]*httptest.ResponseRecorder, len(rqs))
+	var finished int32
+	var wg sync.WaitGroup
+	for i := range rqs {
+		i := i
+		recs[i] = httptest.NewRecorder()
+		wg.Add(1)
+		go func() {
+			defer wg.Done()
+			aw.mux.ServeHTTP(recs[i], prs[i].req)
+			atomic.AddInt32(&finished, 1)
+		}()
+		for { // until request i is accounted for
+			_, waiting := singleflight.VerifC19Load(group)
+			if int(atomic.LoadInt32(&finished))+f.heldCount()+waiting >= i+1 {
+				break
+			}
+			if time.Since(t0) > stepGuard {
+				slowStep = true
+				break
+			}
+			time.Sleep(200 * time.Microsecond)
+		}
+	}
+	f.releaseAll()
+	wg.Wait()
+	guard(t0)
+	calls := f.take()
+	obs := make([]authObs, len(rqs))
+	var reqs, bodies []string
+	var js []interface{}
+	for i := range rqs {
+		o, bodyCoq := observeAuth(recs[i], prs[i].name)
+		obs[i] = o
+		tok := rqs[i].Sess.Access
+		if slug == "okta" {
+			tok = rqs[i].Sess.Refresh
+		}
+		reqs = append(reqs, prs[i].reqCoq(idpCoq(answers[tok])))
+		bodies = append(bodies, c.Pair(bodyCoq, c.Bool(o.Cleared)))
+		js = append(js, map[string]interface{}{"method": rqs[i].Method, "cookie": rqs[i].CookieKind, "session": rqs[i].Sess, "idp_status_for_own_token": answers[tok].Status,
+			"status": recs[i].Code, "kind": o.Kind, "cleared": o.Cleared})
+	}
+	h.steps = append(h.steps, fmt.Sprintf("SConc {| co_secret := %s; co_provider := %s; co_clock := %s; co_reqs := %s; co_bodies := %s; co_calls := %s |}",
+		c.Str(aw.secret), providerCoq[slug], c.Z(clock), c.List(reqs), c.List(bodies), c.Strs(calls)))
+	h.js = append(h.js, map[string]interface{}{"step": "concurrent_sign_out", "slug": slug, "requests": js, "revoke_calls": calls})
+	return obs, calls
 }
 
 // sigStep calls the real validSignature directly.
@@ -759,7 +1002,11 @@ func (e *env) flow(i int) c.Case {
 	if r.Chance(0.1) {
 		method = []string{"POST", "HEAD"}[r.Intn(2)]
 	}
-	po := h.proxyStep(pw, host, origin, method, r.Intn(3))
+	var pv proxyVar
+	if r.Chance(0.75) {
+		pv = genProxyVar(r)
+	}
+	po := h.proxyStep(pw, host, origin, method, r.Intn(3), pv)
 	if !po.OK {
 		return h.emit()
 	}
@@ -821,6 +1068,102 @@ func (e *env) flow(i int) c.Case {
 			ba = backAns{Refresh: 401, Validate: []int{401, 401, 400, 403, 404, 500}[r.Intn(6)]}
 		}
 		h.reuseStep(pw, host, ps, vnow, ba)
+	}
+	return h.emit()
+}
+
+// conc: two or three users confirm sign-out at the same time.
+func (e *env) conc(i int, pattern int, slug string, kinds []string) c.Case {
+	r := e.r
+	h := newHistory()
+	aw := e.auths[0]
+	var pw *proxyWorld
+	for _, x := range e.proxies {
+		if x.slug == slug && !x.secure {
+			pw = x
+		}
+	}
+	po := h.proxyStep(pw, hostIn1, true, "GET", 0)
+	if !po.OK {
+		return h.emit()
+	}
+	uri, sig, ts := get(po.Params, "redirect_uri"), get(po.Params, "sig"), get(po.Params, "ts")
+	n := len(kinds)
+	tag := fmt.Sprintf("%d-%d", i, r.Intn(1000))
+	ss := make([]asess, n)
+	for k := range ss {
+		ss[k] = asess{Email: fmt.Sprintf("user%d@example.com", k), Access: fmt.Sprintf("at-%s-%d", tag, k), Refresh: fmt.Sprintf("rt-%s-%d", tag, k)}
+	}
+	switch pattern {
+	case 0: // no refresh tokens at all, access tokens differ
+		for k := range ss {
+			ss[k].Refresh = ""
+		}
+	case 1: // one refresh token, access tokens differ
+		for k := range ss {
+			ss[k].Refresh = "rt-" + tag + "-shared"
+		}
+	case 2: // the converse: one access token, refresh tokens differ
+		for k := range ss {
+			ss[k].Access = "at-" + tag + "-shared"
+		}
+	case 3: // no access tokens, refresh tokens differ
+		for k := range ss {
+			ss[k].Access = ""
+		}
+	case 4: // the same session in two tabs
+		for k := range ss {
+			ss[k].Access, ss[k].Refresh = ss[0].Access, ss[0].Refresh
+		}
+	case 5: // all distinct
+	case 6: // first two share the refresh token only, the last is distinct
+		ss[1].Refresh = ss[0].Refresh
+	}
+	answers := map[string]c.Answer{}
+	outs := map[string]outcome{}
+	tokOf := func(s asess) string {
+		if slug == "okta" {
+			return s.Refresh
+		}
+		return s.Access
+	}
+	var rqs []authReq
+	for k := range ss {
+		if _, ok := outs[tokOf(ss[k])]; !ok {
+			kind := []string{"ok", "ok", "ok", "already", "other400", "503"}[r.Intn(6)]
+			if k == 0 && r.Chance(0.6) {
+				kind = "ok"
+			}
+			outs[tokOf(ss[k])] = mkOutcome(kind, slug)
+			answers[tokOf(ss[k])] = outs[tokOf(ss[k])].Ans
+		}
+		m := "POST"
+		if kinds[k] == "get" {
+			m = "GET"
+		}
+		ck := "sealed"
+		if kinds[k] == "junk" || kinds[k] == "none" {
+			ck = kinds[k]
+		}
+		rqs = append(rqs, authReq{Slug: slug, Method: m, URI: uri, Sig: sig, TS: ts, InBody: m == "POST", CookieKind: ck, Sess: ss[k]})
+	}
+	_, calls := h.concStep(aw, e.f, slug, rqs, answers)
+	revoked := map[string]bool{}
+	for _, tk := range calls {
+		if o, ok := outs[tk]; ok && o.revokes(slug) {
+			revoked[tk] = true
+		}
+	}
+	// every user's saved proxy session comes back, a validation being due
+	for k := range ss {
+		vnow := int64(100000)
+		ps := psess{Slug: slug, Email: ss[k].Email, Access: ss[k].Access, Refresh: ss[k].Refresh, Upstream: hostIn1,
+			ValidDL: vnow - 60, RefreshDL: vnow + 900, LifetimeDL: vnow + 7200}
+		ba := backAns{Refresh: 201, Validate: 200}
+		if revoked[ss[k].Access] || revoked[ss[k].Refresh] {
+			ba = backAns{Refresh: 401, Validate: 401}
+		}
+		h.reuseStep(pw, hostIn1, ps, vnow, ba)
 	}
 	return h.emit()
 }
@@ -1100,6 +1443,28 @@ func (e *env) corpus() []func() c.Case {
 			}
 		}
 	}
+	// concurrent confirmations: every sharing pattern x both providers (okta + pattern 2/3 is known finding K1)
+	for _, slug := range []string{"google", "okta"} {
+		for pattern := 0; pattern <= 6; pattern++ {
+			slug, pattern := slug, pattern
+			out = append(out, func() c.Case { return e.conc(9000+pattern, pattern, slug, []string{"post", "post"}) })
+			out = append(out, func() c.Case { return e.conc(9100+pattern, pattern, slug, []string{"post", "post", "post"}) })
+		}
+	}
+	// client-controlled parts of the proxy's sign-out request: every parameter name x the network-path value
+	for k, name := range redirectParams {
+		k, name := k, name
+		out = append(out, func() c.Case {
+			h := newHistory()
+			pw := e.proxies[k%len(e.proxies)]
+			v := proxyVar{Query: name + "=" + url.QueryEscape(hostileTargets[k%2]), Headers: [][2]string{{"X-Forwarded-Host", "other.example.test"}, {"Referer", "https://other.example.test/?rd=//other.example.test/"}}}
+			h.proxyStep(pw, hostIn1, true, "GET", 0, v)
+			v.Body, v.Query = v.Query, ""
+			h.proxyStep(pw, hostIn1, true, "POST", 0, v)
+			h.proxyStep(pw, hostIn1, k%2 == 0, "GET", 0, proxyVar{Query: name + "=" + hostileTargets[k%len(hostileTargets)]})
+			return h.emit()
+		})
+	}
 	// string shapes of the signature check
 	out = append(out, func() c.Case {
 		h := newHistory()
@@ -1187,6 +1552,13 @@ func main() {
 	for i := 0; i < a.N; i++ {
 		i := i
 		switch {
+		case i%10 == 5:
+			cases = append(cases, e.runGuarded(r, func() c.Case {
+				kinds := [][]string{{"post", "post"}, {"post", "post"}, {"post", "post", "post"}, {"post", "junk", "post"}, {"post", "get", "post"}, {"none", "post", "post"}}[e.r.Intn(6)]
+				slug := []string{"google", "okta"}[e.r.Intn(2)]
+				pattern := e.r.Intn(7)
+				return e.conc(i, pattern, slug, kinds)
+			}))
 		case i%10 < 6:
 			cases = append(cases, e.runGuarded(r, func() c.Case { return e.flow(i) }))
 		case i%10 < 8:
